@@ -11,6 +11,7 @@ GHOST(unsigned long, GN)             /* the view's element count */
 GHOST_ARR(unsigned long, IDXV, 24)   /* IDXV[i*4+k] = coordinate k of ndindex(shape)[i], the i-th multi-index in row-major order */
 GHOST_ARR(float, VG, 6)              /* VG[i] = view element at the i-th multi-index */
 
+GHOST(unsigned long, W4)             /* first position at which two index arrays differ (for the isequal contract unit) */
 #ifndef VERIF_NATIVE
 /* the lazy view: an arbitrary pure function of the (live part of the) multi-index */
 float __CPROVER_uninterpreted_vv(unsigned long, unsigned long, unsigned long, unsigned long, unsigned long);
@@ -29,6 +30,16 @@ unsigned long __CPROVER_uninterpreted_pos(unsigned long, unsigned long, unsigned
 /* ... which, at the i-th enumerated multi-index of a well-formed array, is position i (C01: ndindex[i] = indices(i),
  * base_ndarray(idx) = data[offset(idx)]; lemma L1 of lemmas/MixedRadix.lean: offset(indices(i)) = i) */
 #define C10_POS_ENUM(p)   (!((p) < GN) || POSF_AT(p) == (p))
+#endif
+
+#ifndef VERIF_NATIVE
+/* first differing position of two index arrays of the same length (len if none) */
+static inline unsigned long c10_first_diff(sv4_t a, sv4_t b)
+{
+  unsigned long r = SV_LEN(a);
+  for (unsigned long k = 4; k > 0; k--) if (k - 1 < SV_LEN(a) && SV_AT(a, k - 1) != SV_AT(b, k - 1)) r = k - 1;
+  return r;
+}
 #endif
 
 /* ---- bounded unit: element of the lazy view transpose(src) at multi-index idx == NumPy's src.T[idx] = src[reversed idx] */
